@@ -79,6 +79,8 @@ type Input struct {
 	R         *FlushReq `json:"r,omitempty"`
 	G         *GetReq   `json:"g,omitempty"`
 	FailAfter *int      `json:"failafter,omitempty"`
+	// Stall: this Get is read by a slow consumer (the runner's GetStall duration, after the first response)
+	Stall bool `json:"stall,omitempty"`
 }
 
 type session struct {
@@ -746,7 +748,7 @@ func (rn *Runner) doGet(in Input) {
 	gs := &getStream{ctx: context.Background(), failAfter: -1}
 	if in.FailAfter != nil {
 		gs.failAfter = *in.FailAfter
-	} else if rn.GetStall > 0 && rn.StallsLeft > 0 {
+	} else if rn.GetStall > 0 && (rn.StallsLeft > 0 || in.Stall) {
 		// a slow but connected consumer: must still receive every entry
 		gs.stallAt, gs.stall = 1, rn.GetStall
 	}
@@ -755,7 +757,9 @@ func (rn *Runner) doGet(in Input) {
 	select {
 	case err := <-ch:
 		if gs.stalled {
-			rn.StallsLeft--
+			if !in.Stall {
+				rn.StallsLeft--
+			}
 			rn.Stalled++
 		}
 		entries := []map[string]any{}
